@@ -56,6 +56,7 @@ var Check = &run.Check{
 		"crashes are de-duplicated by panic@<first coca frame>/<pass>; a worker death (fatal error, stack overflow, os.Exit) is attributed to the case by the coordinator",
 		"listener state that survives from one file to the next inside a process (package-level variables in coca) is part of the execution; a reported witness is the complete file text, and the replay runs it in a fresh process",
 		"only termination-by-return and serialisability are asserted; what the passes report for unusual constructs is not",
+		"every 60 cases a worker empties the prediction caches of coca's generated Java parser (process-global memo tables reached through exported antlr API; they hold no results) so that a long-lived worker stays below ~300 MB; the CLI slice runs the untouched binary",
 		"the construct-family detector used for sources (ii)/(iii) is a token-level heuristic; it feeds the non-triviality rule and the shape hash only",
 	},
 	Cases: cases,
@@ -204,7 +205,8 @@ func filter(c *run.Ctx, o *run.Outcome, f *javawide.File, original string) *java
 }
 
 func runCase(c *run.Ctx, o *run.Outcome) {
-	gcOnce.Do(func() { debug.SetGCPercent(400) })
+	gcOnce.Do(func() { debug.SetGCPercent(150) })
+	Housekeeping()
 	f := unusual(c, o)
 	if f == nil {
 		return
